@@ -99,6 +99,69 @@ variable (e : Endian) (rom : Nat → Byte) (glob : String → Nat) (g : GenForma
   (hrom : RomTable rom tb g.table) (hvalid : ∀ d ∈ g.table, d.Valid) (hglob : glob g.tableName = tb)
 include hrom hvalid hglob
 
+/-- Core of `getter_code`: a function whose body is what a getter record says behaves as the record. -/
+theorem getter_body_code (x : Getter) (F : Fn) (hbody : some F.body = expectedGetterBody x)
+    (ht : x.table = g.tableName) (hN : x.numFields < 256) (hNl : x.numFields ≤ g.table.length)
+    (hfo : fieldOK x.field = true)
+    (pdu : Option Nat) (hpdu : ∀ p, pdu = some p → p ≠ 0 ∧ p + 1024 ≤ 18446744073709551616)
+    (arg : Nat) (harg : arg < 4294967296) (m : Mem) (l0 : List Access) :
+    (exec (mkEnv e rom glob) 31 F.body (mkFrame [pdu.getD 0, arg]) ⟨m, l0⟩).map (fun r => (r.1, r.2.2.mem))
+      = some (.ret (x.run g.table e m pdu arg), m) := by
+  have hgl : glob x.table = tb := by rw [ht]; exact hglob
+  unfold expectedGetterBody at hbody
+  cases hf : x.field with
+  | none =>
+    rw [hf] at hbody
+    simp only at hbody
+    split at hbody
+    · rename_i hc
+      obtain ⟨hr64, hc32⟩ := hc
+      have hb : F.body = _ := (Option.some.inj hbody)
+      rw [hb]
+      have hargs : evalArgs (mkEnv e rom glob) (mkFrame [pdu.getD 0, arg])
+          [.glob x.table, .cast .i32 .u8 (.lit x.numFields), .var 0, .var 1] = some [tb, x.numFields, pdu.getD 0, arg] := by
+        simp (disch := omega) [evalArgs, evalE, hgl, conv_i32_u8, Nat.mod_eq_of_lt]
+      rw [seq_next (call_GetField e rom glob g.table tb hrom hvalid 29 (by decide) _ _ (some 2) x.numFields arg pdu hargs hN harg hNl hpdu m l0)]
+      simp only [exec, evalE, setDst, upd_same, Option.map]
+      congr 2
+      unfold Getter.run fieldArg
+      rw [hf, hc32, hr64, getFieldLogFrom_val]
+      simp only
+      have hlt : getField e g.table x.numFields m pdu (arg % 2 ^ 32) < 2 ^ 64 := getField_lt _ _ _ _ _ _
+      rw [Nat.mod_eq_of_lt harg, Nat.mod_eq_of_lt (by rw [Nat.mod_eq_of_lt harg] at hlt; exact hlt)]
+    · cases hbody
+  | some fk =>
+    obtain ⟨en, k⟩ := fk
+    rw [hf] at hbody hfo
+    simp only [fieldOK, decide_eq_true_eq] at hfo
+    simp only at hbody
+    have hargs : evalArgs (mkEnv e rom glob) (mkFrame [pdu.getD 0, arg])
+        [.glob x.table, .cast .i32 .u8 (.lit x.numFields), .var 0, .cast .i32 .u32 (.lit k)] = some [tb, x.numFields, pdu.getD 0, k] := by
+      simp (disch := omega) [evalArgs, evalE, hgl, conv_i32_u8, conv_i32_u32, Nat.mod_eq_of_lt]
+    have hcall := call_GetField e rom glob g.table tb hrom hvalid 29 (by decide) (mkFrame [pdu.getD 0, arg]) _ (some 1) x.numFields k pdu hargs hN (by omega) hNl hpdu m l0
+    have hlt : getField e g.table x.numFields m pdu k < 2 ^ 64 := getField_lt _ _ _ _ _ _
+    split at hbody
+    · rename_i hr64
+      have hb : F.body = _ := (Option.some.inj hbody)
+      rw [hb, seq_next hcall]
+      simp only [exec, evalE, setDst, upd_same, Option.map]
+      congr 2
+      unfold Getter.run fieldArg
+      rw [hf, hr64, getFieldLogFrom_val]
+      simp only
+      rw [Nat.mod_eq_of_lt hlt]
+    · cases hty : tyOfBits x.retBits with
+      | none => rw [hty] at hbody; cases hbody
+      | some ty =>
+        rw [hty] at hbody
+        obtain ⟨hbits, hsg⟩ := tyOfBits_bits hty
+        have hb : F.body = _ := (Option.some.inj hbody)
+        rw [hb, seq_next hcall]
+        simp only [exec, evalE, setDst, upd_same, Option.map, conv_u64]
+        congr 2
+        unfold Getter.run fieldArg
+        rw [hf, getFieldLogFrom_val, hbits]
+
 /-- **Getters, as C text.**  Running the body of the function the check matched returns what the
     accessor record's meaning (`Getter.run`) returns and leaves memory unchanged. -/
 theorem getter_code (fns : List Fn) (x : Getter) (h : checkGetterCode g fns x = true)
